@@ -719,7 +719,8 @@ def stabilizer_projection_trace(gs_stb, ps_stb, gs_obs, ps_obs, r):
             update[p+1::] = True
             p2 = torch.logical_and(acqs, update).nonzero().flatten()
             p1 = torch.logical_and(torch.logical_and(acqs, indices<N), update).nonzero().flatten()
-            ps_stb = ps_stb.scatter(-1, p1, (ps_stb[p1] + ps_stb[p] + ipow(gs_stb[p1], gs_stb[p]))%4)
+            if p1.shape[0] > 0: # only stabilizer rows carry phases (p < N whenever such rows follow the pivot)
+                ps_stb = ps_stb.scatter(-1, p1, (ps_stb[p1] + ps_stb[p] + ipow(gs_stb[p1], gs_stb[p]))%4)
             gs_stb[p2] = (gs_stb[p2] + gs_stb[p])%2
         temp_acqs = torch.logical_and(torch.logical_and(acqs,  ~update), ~(indices<N+r))
         temp_acqs = torch.roll(temp_acqs, shifts=(-N), dims=(0))
